@@ -900,7 +900,9 @@ def to_hs_from_kraus_matrices(
         HS representation of this gate.
     """
     kraus_tensor = [np.kron(mat, mat.conjugate()) for mat in kraus]
-    hs_cb = sum(kraus_tensor)
+    # an empty Kraus list denotes the zero map
+    dim_squared = c_sys.dim ** 2
+    hs_cb = sum(kraus_tensor, np.zeros((dim_squared, dim_squared), dtype=np.complex128))
     hs = convert_hs(hs_cb, c_sys.comp_basis(), c_sys.basis())
     return mutil.truncate_hs(
         hs, eps_truncate_imaginary_part=eps_truncate_imaginary_part
